@@ -3,19 +3,19 @@ import TempestVerif.Model.Boundary
 /-
   Canonical model of the two mutation kernels of `tempest/mcmc.py` (C03; the scalar part is reused by C10).
 
-  Python, one walker `k` of one step of `BaseMCMCRunner.run` (c = assignments[k]):
+  Python, one walker `k` of one step of `BaseMCMCRunner.run` (c = assignments[k]), after the fix of F16 (out-of-cube
+  proposals are REJECTED, not redrawn):
 
     tpCN  diff = u[k] - mu[c]
           dot  = diff @ inv_cov[c] @ diff
-          g    = np.random.gamma(shape=(n_dim + nu[c]) / 2, scale=2.0 / (nu[c] + dot));   s = 1.0 / g      -- ONE draw per walker
-          while True:                                                                                       -- redraws only the normal vector
-              p = mu[c] + sqrt(1.0 - sigma**2.0) * diff + sigma * sqrt(s) * chol[c] @ randn(n_dim)          -- ((sigma*sqrt s) * chol) @ z
-              p = apply_boundary_conditions(p, periodic, reflective)
-              if check_bounds(p, periodic, reflective): return p
-          factor = -A + B,   A = -0.5 * (n_dim + nu) * log(1 + dot' / nu)   (dot' at the returned, folded point),   B likewise at u[k]
-    RWM   while True: p = u[k] + sigma * chol[c] @ randn(n_dim); fold; check        factor = 0
-    both  alpha = nan_to_num(minimum(1.0, exp(beta * (logl' - logl) + factor)), nan=0.0);   accept = rand < alpha
-          after accept/reject:  sigma[c] <- _adapt_sigma(c, mean alpha of the cluster)
+          g    = np.random.gamma(shape=(n_dim + nu[c]) / 2, scale=2.0 / (nu[c] + dot));   s = 1.0 / g
+          p    = mu[c] + sqrt(1.0 - sigma**2.0) * diff + sigma * sqrt(s) * chol[c] @ randn(n_dim)      -- ((sigma*sqrt s) * chol) @ z
+          return apply_boundary_conditions(p, periodic, reflective)                                      -- ONE draw, no loop
+    RWM   p = u[k] + sigma * chol[c] @ randn(n_dim);  return apply_boundary_conditions(p, ...)
+    run   in_bounds = check_bounds(u_prime);  u_prime[~in_bounds] = u[~in_bounds]      -- rejected walker evaluated at its current point
+          factor = -A + B   (tpCN; A = -0.5 (n_dim + nu) log(1 + dot'/nu) at u_prime, B likewise at u)    |   0 (RWM)
+          alpha = nan_to_num(minimum(1.0, exp(beta * (logl' - logl) + factor)), nan=0.0);   alpha[~in_bounds] = 0.0
+          accept = rand < alpha;   after accept/reject:  sigma[c] <- _adapt_sigma(c, mean alpha of the cluster)
 
   The first block are the scalar expressions in canonical form (theorems in `Props/C03.lean` are about these; the
   regenerated `Gen/Kernel.lean` is tied to them by the bridging obligations `gen_eq_canon_*`).  The second block is an
@@ -51,6 +51,10 @@ def nanToZero (x : α) : α := if Sc.le x x then x else Sc.zero
 
 def acceptProb (beta l lp factor : α) : α :=
   nanToZero (npMinimum Sc.one (ScT.exp (Sc.add (Sc.mul beta (Sc.sub lp l)) factor)))
+/-- `alpha[~in_bounds] = 0.0` -/
+def alphaOutOfBounds (_alpha : α) : α := Sc.zero
+/-- acceptance probability of a walker given whether its proposal passed `check_bounds` -/
+def boundedAlpha (inb : Bool) (alpha : α) : α := if inb then alpha else alphaOutOfBounds alpha
 def acceptDecision (r alpha : α) : Bool := Sc.lt r alpha
 
 /-- `sigma + 1/(iteration+1) * (mean_accept - 0.234)` -/
@@ -87,14 +91,6 @@ def tpcnProposal (mu diff : List α) (chol : List (List α)) (sigma s : α) (z :
 def rwmProposal (u : List α) (chol : List (List α)) (sigma : α) (z : List α) : List α :=
   vadd u (matVec (scaleMat sigma chol) z)
 
-/-- the redraw loop on a tape of normal vectors: first folded candidate passing `check_bounds`, with the
-    number of draws consumed; `none` if the tape is exhausted first -/
-def firstInside (per refl : List Nat) (mk : List α → List α) : List (List α) → Nat → Option (Nat × List α)
-  | [], _ => none
-  | z :: zs, n =>
-    let p := Model.Boundary.apply per refl (mk z)
-    if Model.Boundary.checkBounds per refl p then some (n + 1, p) else firstInside per refl mk zs (n + 1)
-
 inductive Kind | tpcn | rwm
   deriving DecidableEq, Repr
 
@@ -115,8 +111,8 @@ structure StepIn (α : Type) where
   g : α
   /-- the uniform draw -/
   r : α
-  /-- tape of standard-normal vectors -/
-  zs : List (List α)
+  /-- the standard-normal vector (one draw per walker and step) -/
+  z : List α
   per : List Nat
   refl : List Nat
 
@@ -124,7 +120,13 @@ structure StepOut (α : Type) where
   shape : α
   scale : α
   s : α
+  /-- number of normal vectors consumed: always 1 -/
   draws : Nat
+  /-- what `_propose` returned (folded candidate) -/
+  cand : List α
+  /-- `check_bounds` of the candidate -/
+  inb : Bool
+  /-- the point passed on to transform / likelihood / factor: the candidate, or the current point when out of bounds -/
   prop : List α
   dot : α
   dotp : α
@@ -133,13 +135,14 @@ structure StepOut (α : Type) where
   accept : Bool
   newU : List α
 
-def finish (i : StepIn α) (shape scale s dot dotp factor : α) (draws : Nat) (prop : List α) : StepOut α :=
-  let alpha := acceptProb i.beta i.l i.lp factor
+def finish (i : StepIn α) (shape scale s dot dotp factor : α) (cand : List α) (inb : Bool) (prop : List α) : StepOut α :=
+  let alpha := boundedAlpha inb (acceptProb i.beta i.l i.lp factor)
   let acc := acceptDecision i.r alpha
-  { shape, scale, s, draws, prop, dot, dotp, factor, alpha, accept := acc, newU := if acc then prop else i.u }
+  { shape, scale, s, draws := 1, cand, inb, prop, dot, dotp, factor, alpha, accept := acc,
+    newU := if acc then prop else i.u }
 
 /-- one walker, one step -/
-def step (i : StepIn α) : Option (StepOut α) :=
+def step (i : StepIn α) : StepOut α :=
   match i.kind with
   | .tpcn =>
     let d : α := Sc.ofNat i.u.length
@@ -148,14 +151,15 @@ def step (i : StepIn α) : Option (StepOut α) :=
     let shape := gammaShape d i.nu
     let scale := gammaScale i.nu dot
     let s := sFromGamma i.g
-    match firstInside i.per i.refl (tpcnProposal i.mu diff i.chol i.sigma s) i.zs 0 with
-    | none => none
-    | some (n, p) =>
-      let dotp := qform (vsub p i.mu) i.invcov
-      some (finish i shape scale s dot dotp (tpcnLogFactor d i.nu dot dotp) n p)
+    let cand := Model.Boundary.apply i.per i.refl (tpcnProposal i.mu diff i.chol i.sigma s i.z)
+    let inb := Model.Boundary.checkBounds i.per i.refl cand
+    let p := if inb then cand else i.u
+    let dotp := qform (vsub p i.mu) i.invcov
+    finish i shape scale s dot dotp (tpcnLogFactor d i.nu dot dotp) cand inb p
   | .rwm =>
-    match firstInside i.per i.refl (rwmProposal i.u i.chol i.sigma) i.zs 0 with
-    | none => none
-    | some (n, p) => some (finish i Sc.zero Sc.zero Sc.zero Sc.zero Sc.zero rwmLogFactor n p)
+    let cand := Model.Boundary.apply i.per i.refl (rwmProposal i.u i.chol i.sigma i.z)
+    let inb := Model.Boundary.checkBounds i.per i.refl cand
+    let p := if inb then cand else i.u
+    finish i Sc.zero Sc.zero Sc.zero Sc.zero Sc.zero rwmLogFactor cand inb p
 
 end Model.Kernel
